@@ -1,6 +1,7 @@
 import HotstuffModel.Proofs.Commit
 import HotstuffModel.Proofs.Reachable
 import HotstuffModel.Proofs.GlobalCommit
+import HotstuffModel.Proofs.PrefixLogs
 /-!
 # C02 — Each node delivers committed blocks exactly once, in chain order
 
@@ -137,5 +138,13 @@ theorem deliveries_strictly_increasing_no_duplicates (X : World) (G : GState) (h
   have : (commitsOf (G i).hist).reverse.Nodup :=
     hp.imp (fun {a b} (h : a.round < b.round) => by intro e; subst e; omega)
   exact (List.pairwise_reverse.mp this).imp (fun h => Ne.symm h)
+
+/-- All honest nodes deliver the SAME sequence: their delivery logs (by block digest, oldest
+first) are prefixes of one another in every reachable global state. -/
+theorem delivery_logs_prefix_consistent (X : World) (G : GState) (hR : Reach X G) (i j : Nat)
+    (hi : X.honest i) (hj : X.honest j) :
+    (commitsOf (G i).hist).reverse.map Block.digest <+: (commitsOf (G j).hist).reverse.map Block.digest ∨
+    (commitsOf (G j).hist).reverse.map Block.digest <+: (commitsOf (G i).hist).reverse.map Block.digest :=
+  logs_prefix_consistent X G hR i j hi hj
 
 end HS.C02
